@@ -3,6 +3,22 @@
 #include <math.h>
 #include <stdlib.h>
 
+/* JTIOSUE_QUBOVERT_VERIF: optional step trace for external trace validation.
+   Off unless the environment has JTIOSUE_QUBOVERT_VERIF=1 and
+   JTIOSUE_QUBOVERT_VERIF_TRACE=<file>; add-only and flow-neutral (the random
+   variate is peeked from a copy of the generator state, never consumed). */
+#include <stdio.h>
+static FILE *qv_tr = NULL;
+static long qv_left = 0;
+static FILE *qv_trace_open(void) {
+    const char *g = getenv("JTIOSUE_QUBOVERT_VERIF");
+    const char *p = getenv("JTIOSUE_QUBOVERT_VERIF_TRACE");
+    const char *m = getenv("JTIOSUE_QUBOVERT_VERIF_TRACE_MAX");
+    qv_left = m ? atol(m) : 2000000000L;
+    if(g && g[0] == '1' && p && p[0]) return fopen(p, "a");
+    return NULL;
+}
+
 
 double puso_subgraph_value(
     int *state, int spin,
@@ -154,8 +170,15 @@ void single_anneal_puso(
                 index, subgraphs
             );
 
+            int qv_before = state[i]; double qv_u = -1.;
+            if(qv_tr) { rng_t qv_c = *rng; qv_u = rand_double(&qv_c); }
             if(dE <= 0 || (T > 0 && rand_double(rng) < exp(-dE / T))) {
                 state[i] *= -1;
+            }
+            if(qv_tr && qv_left > 0) {
+                fprintf(qv_tr, "S %d %d %d %a %a %a %d\n", t, j, i, dE, T,
+                        qv_u, state[i] != qv_before);
+                qv_left--;
             }
         }
     }
@@ -317,6 +340,12 @@ void anneal_puso(  // updates states and values in place
         }
 
         // run simulated annealing, updates `state` in place.
+        if(i == 0) qv_tr = qv_trace_open();
+        if(qv_tr) {
+            fprintf(qv_tr, "A %d %d", i, len_state);
+            for(j=0; j<len_state; j++) fprintf(qv_tr, " %d", state[j]);
+            fprintf(qv_tr, "\n");
+        }
         single_anneal_puso(
             len_state, state,
             num_couplings, terms, couplings,
@@ -329,7 +358,13 @@ void anneal_puso(  // updates states and values in place
         for(j=0; j<len_state; j++) {
             states[i * len_state + j] = state[j];
         }
+        if(qv_tr) {
+            fprintf(qv_tr, "E %d %a", i, values[i]);
+            for(j=0; j<len_state; j++) fprintf(qv_tr, " %d", state[j]);
+            fprintf(qv_tr, "\n");
+        }
     }
+    if(qv_tr) { fclose(qv_tr); qv_tr = NULL; }
 
     // free the arrays we created.
     free(state); free(index);
